@@ -160,6 +160,10 @@ def judge(key, e, damaged_img, relaxed=False):
                 k = min(len(c), len(p))
                 if k > 0 and c[:k] == p[:k] and (w.fmt["channels"] == 2 or len(c) >= len(p)):
                     ok = True
+            if w.fmt["channels"] == 2 and len(w.data) == 0:
+                # the damaged half has no audio left (size field damaged down to the header): the merged file ends with the
+                # shorter channel (C12), i.e. at once -- the empty prefix is the consistent prefix
+                ok = True
         if not ok:
             return False, "partner-audio-lost", {"partner": items[partner]["name"], "files": sorted(obs["files"])[:6]}
     kl = "entry-gone" if len(obs["rows"]) < len(base["rows"]) else ("entry-changed" if obs["rows"] != base["rows"] else "entry-same-listing")
@@ -221,10 +225,12 @@ class Check(CheckBase):
             "(permuted chain, reverse mode, release-end mode): every byte of each sample's 32-byte directory record and 48-byte "
             "parameter record x the same menus (thorough: all 256 for sample 1, menu for the others); thorough also all byte "
             "pairs inside the multi-byte fields (size, start / fat_entry, start, sustain end, release end, cluster_top) over the "
-            "menu. Oracle vs the undamaged run: every other item still listed with the same printed row, its position-coded "
+            "menu; whole-field boundary values of the start / size / fat_entry / cluster_top / loop-point fields (table length +-1, "
+            "flag and sign bits, 0, all ones). Oracle vs the undamaged run: every other item still listed with the same printed row, its position-coded "
             "PCM complete in some exported channel (the L/R partner of a damaged item: complete when mono, a consistent prefix "
             "when merged), ls and export do not abort or hang. non-trivial = damage that changes the listing")
-    assumptions = ["name damage that reproduces a sibling's name or creates a stereo partner: only the audio of the other "
+    assumptions = ["the L/R partner of a damaged item merged with it may be cut to the damaged half's length (C12), down to an empty file",
+                   "name damage that reproduces a sibling's name or creates a stereo partner: only the audio of the other "
                    "items is required (their shown names may legitimately get a count or merge into a stereo stem)"]
 
     def shards(self):
@@ -257,7 +263,26 @@ class Check(CheckBase):
             for e in range(len(items)):
                 for sec in range(3, 14):
                     cases.append({"subject": key, "entry": e, "bytes": [[20, sec]]})
+        # targeted: whole-field boundary values (all bytes of the field set at once): first sector behind the table, last
+        # entry of the table, partition size +-1, sign / flag bits
+        def field(fo, fw, v):
+            return [[fo + i, (v >> (8 * i)) & 0xFF] for i in range(fw)]
+        for key in ("akai0", "akai1", "akai2"):
+            img, items, path, base = subject(key)
+            for e in range(len(items)):
+                for v in (0, 1, 2, A.SAT_N - 2, A.SAT_N - 1, A.SAT_N, A.SAT_N + 1, 0x3FFF, 0x4000, 0x7FFF, 0x8000, 0xC000, 0xFFFE, 0xFFFF):
+                    cases.append({"subject": key, "entry": e, "bytes": field(20, 2, v)})
+                for v in (0, 1, 139, 140, 141, 8191, 8192, 8193, 0x7FFFFF, 0x800000, 0xFFFFFF):
+                    cases.append({"subject": key, "entry": e, "bytes": field(17, 3, v)})
         rcases = []
+        for e in range(3):
+            for v in (0, 1, 0xFFF0, R.FAT_N - 11, R.FAT_N - 10, R.FAT_N - 9, 0xFFF6, 0xFFF7, 0xFFF8, 0xFFFE, 0xFFFF, 0x7FFF, 0x8000):
+                rcases.append({"subject": "roland", "entry": e, "rec": 0, "bytes": field(28, 2, v)})
+            for v in (1, 2, 3, 4, 0x7FFF, 0x8000, 0xFFFF):
+                rcases.append({"subject": "roland", "entry": e, "rec": 1, "bytes": field(40, 2, v)})
+            for off in (16, 24, 32):
+                for v in (0, 0x100, 0x11FF00, 0x120000, 0x23FF00, 0x240000, 0x7FFFFF00, 0x80000000, 0xFFFFFF00, 0xFFFFFFFF):
+                    rcases.append({"subject": "roland", "entry": e, "rec": 1, "bytes": field(off, 4, v)})
         for e in range(3):
             for cl in range(2, 8):
                 rcases.append({"subject": "roland", "entry": e, "rec": 0, "bytes": [[28, cl]]})      # fat_entry low byte
